@@ -738,6 +738,11 @@ class Model(Object):
         # First check whether the reactions exist in the model.
         pruned = DictList(filter(existing_filter, reaction_list))
 
+        # The constructor of a reaction accepts bounds that are the wrong way
+        # round, the solver does not: refuse them before anything is changed.
+        for reaction in pruned:
+            reaction._check_bounds(reaction.lower_bound, reaction.upper_bound)
+
         context = get_context(self)
 
         # Add reactions. Also take care of genes and metabolites in the loop.
